@@ -1,5 +1,5 @@
-(** C18: the hand-written I/O layer behaves like the documented contract of std::io (read_exact, Take, read_to_end,
-    write_all), for every script of inner-reader / inner-writer behaviour (short reads, interruptions, failures). *)
+(** C18: the hand-written I/O layer behaves like the documented contract of std::io (io_read_exact, Take, read_to_end,
+    io_write_all), for every script of inner-reader / inner-writer behaviour (short reads, interruptions, failures). *)
 Require Import Zrs.lib.RsPrelude Zrs.model.IoNoStd.
 Open Scope nat_scope.
 
@@ -39,10 +39,10 @@ Proof.
       split; [intros _; left; reflexivity|intros c Hc; right; exact Hc].
 Qed.
 
-(** *** read_exact *)
+(** *** io_read_exact *)
 Theorem read_exact_spec fuel : forall r need got got' err r',
   need + length (sr_script r) < fuel ->
-  read_exact fuel r need got = ((got', err), r') ->
+  io_read_exact fuel r need got = ((got', err), r') ->
   exists k, got' = got ++ firstn k (sr_data r) /\ sr_data r' = skipn k (sr_data r) /\ k <= need /\
     match err with
     | None => k = need /\ need <= length (sr_data r)
@@ -53,8 +53,8 @@ Theorem read_exact_spec fuel : forall r need got got' err r',
 Proof.
   induction fuel as [|f IH]; intros r need got got' err r' Hf H; [lia|].
   destruct need as [|need'].
-  - cbn [read_exact] in H. injection H as <- <- <-. exists 0. cbn. rewrite app_nil_r. repeat split; lia.
-  - cbn [read_exact] in H. remember (S need') as need eqn:Hneed.
+  - cbn [io_read_exact] in H. injection H as <- <- <-. exists 0. cbn. rewrite app_nil_r. repeat split; lia.
+  - cbn [io_read_exact] in H. remember (S need') as need eqn:Hneed.
     pose proof (sr_read_spec r need) as Sp. destruct (sr_read r need) as [[bytes|e] r1].
     + destruct Sp as (k & Hk & Eb & Er & Ls & Hz & Hin).
       destruct bytes as [|b0 bt] eqn:Ebytes.
@@ -89,12 +89,12 @@ Proof.
       * destruct He; discriminate.
 Qed.
 
-(** with no failing call in the script and enough data, read_exact succeeds (and never reports Interrupted) *)
+(** with no failing call in the script and enough data, io_read_exact succeeds (and never reports Interrupted) *)
 Corollary read_exact_succeeds fuel r need got : need + length (sr_script r) < fuel -> ~ In RFail (sr_script r) ->
   need <= length (sr_data r) ->
-  exists r', read_exact fuel r need got = ((got ++ firstn need (sr_data r), None), r') /\ sr_data r' = skipn need (sr_data r).
+  exists r', io_read_exact fuel r need got = ((got ++ firstn need (sr_data r), None), r') /\ sr_data r' = skipn need (sr_data r).
 Proof.
-  intros Hf Hnf Hd. destruct (read_exact fuel r need got) as [[got' err] r'] eqn:E.
+  intros Hf Hnf Hd. destruct (io_read_exact fuel r need got) as [[got' err] r'] eqn:E.
   destruct (read_exact_spec fuel r need got got' err r' Hf E) as (k & G & R & K & Herr).
   destruct err as [[| | |]|]; try contradiction; try lia.
   destruct Herr as [-> _]. exists r'. rewrite G. split; [reflexivity|exact R].
@@ -102,7 +102,7 @@ Qed.
 
 (** *** Take *)
 Theorem take_read_spec t space : (0 <= tk_limit t)%Z ->
-  match take_read t space with
+  match io_take_read t space with
   | (inl bytes, t') => exists k, k <= space /\ (Z.of_nat k <= tk_limit t)%Z /\ bytes = firstn k (sr_data (tk_inner t)) /\
                                  sr_data (tk_inner t') = skipn k (sr_data (tk_inner t)) /\
                                  (tk_limit t' = tk_limit t - Z.of_nat (length bytes))%Z /\ (0 <= tk_limit t')%Z /\
@@ -110,10 +110,10 @@ Theorem take_read_spec t space : (0 <= tk_limit t)%Z ->
   | (inr e, t') => tk_limit t' = tk_limit t /\ sr_data (tk_inner t') = sr_data (tk_inner t)
   end.
 Proof.
-  intros Hl. unfold take_read. destruct (Z.eqb_spec (tk_limit t) 0) as [H0|Hn0].
+  intros Hl. unfold io_take_read. destruct (Z.eqb_spec (tk_limit t) 0) as [H0|Hn0].
   - exists 0. cbn. repeat split; try lia.
-  - pose proof (sr_read_spec (tk_inner t) (Nat.min (Z.to_nat (tk_limit t)) space)) as Sp.
-    destruct (sr_read (tk_inner t) (Nat.min (Z.to_nat (tk_limit t)) space)) as [[bytes|e] r'].
+  - pose proof (sr_read_spec (tk_inner t) (Z.to_nat (Z.min (tk_limit t) (Z.of_nat space)))) as Sp.
+    destruct (sr_read (tk_inner t) (Z.to_nat (Z.min (tk_limit t) (Z.of_nat space)))) as [[bytes|e] r'].
     + destruct Sp as (k & Hk & Eb & Er & _ & Hz & _). exists k. cbn [tk_inner tk_limit].
       assert (Lb : length bytes <= k) by (rewrite Eb, firstn_length; lia).
       repeat split; try lia; try assumption.
@@ -124,15 +124,15 @@ Qed.
 (** everything read through a Take, over any sequence of calls, is a prefix of the inner data no longer than the
     limit; without failing / interrupted calls, read_to_end delivers exactly min(limit, available) bytes *)
 Theorem take_read_to_end_spec fuel : forall t out out' err t', (0 <= tk_limit t)%Z ->
-  take_read_to_end fuel t out = ((out', err), t') ->
+  io_take_read_to_end fuel t out = ((out', err), t') ->
   exists k, out' = out ++ firstn k (sr_data (tk_inner t)) /\ (Z.of_nat k <= tk_limit t)%Z /\
             sr_data (tk_inner t') = skipn k (sr_data (tk_inner t)) /\
             (err = None -> Z.of_nat k = Z.min (tk_limit t) (Z.of_nat (length (sr_data (tk_inner t)))))%Z.
 Proof.
-  induction fuel as [|f IH]; intros t out out' err t' Hl H; cbn [take_read_to_end] in H.
+  induction fuel as [|f IH]; intros t out out' err t' Hl H; cbn [io_take_read_to_end] in H.
   - injection H as <- <- <-. exists 0. cbn. rewrite app_nil_r. repeat split; try lia. discriminate.
   - pose proof (take_read_spec t (Z.to_nat 16384) Hl) as Sp.
-    destruct (take_read t (Z.to_nat 16384)) as [[bytes|e] t1].
+    destruct (io_take_read t (Z.to_nat 16384)) as [[bytes|e] t1].
     + destruct Sp as (k & Hk & Hkl & Eb & Er & El & El0 & Hz).
       destruct bytes as [|b0 bt] eqn:Ebytes.
       * injection H as <- <- <-. exists 0. cbn [firstn skipn]. rewrite app_nil_r. split; [reflexivity|]. split; [lia|].
@@ -157,7 +157,7 @@ Proof.
       split; [reflexivity|]. split; [lia|]. split; [exact Ed|discriminate].
 Qed.
 
-(** *** write_all *)
+(** *** io_write_all *)
 Lemma sw_write_spec w buf :
   match sw_write w buf with
   | (inl n, w') => n <= length buf /\ sw_out w' = sw_out w ++ firstn n buf /\ length (sw_script w') <= length (sw_script w) /\
@@ -178,7 +178,7 @@ Proof.
 Qed.
 
 Theorem write_all_spec fuel : forall w buf err w', length buf + length (sw_script w) < fuel ->
-  write_all fuel w buf = (err, w') ->
+  io_write_all fuel w buf = (err, w') ->
   exists k, sw_out w' = sw_out w ++ firstn k buf /\
     match err with
     | None => k = length buf
@@ -189,8 +189,8 @@ Theorem write_all_spec fuel : forall w buf err w', length buf + length (sw_scrip
 Proof.
   induction fuel as [|f IH]; intros w buf err w' Hf H; [lia|].
   destruct buf as [|b0 bt].
-  - cbn [write_all] in H. injection H as <- <-. exists 0. cbn. rewrite app_nil_r. split; reflexivity.
-  - cbn [write_all] in H. remember (b0 :: bt) as buf eqn:Hbuf.
+  - cbn [io_write_all] in H. injection H as <- <-. exists 0. cbn. rewrite app_nil_r. split; reflexivity.
+  - cbn [io_write_all] in H. remember (b0 :: bt) as buf eqn:Hbuf.
     pose proof (sw_write_spec w buf) as Sp. destruct (sw_write w buf) as [[n|e] w1].
     + destruct Sp as (Hn & Eo & Ls & Hz & Hin).
       destruct n as [|n'].
